@@ -12,6 +12,15 @@ def main(argv):
         print('usage: tools/check <Cxx> [quick|thorough]')
         return 2
     pid = argv[0]
+    if '--replay' in argv:
+        # a replay file records the seed and tier of the run that produced it: every random choice
+        # derives from VERIF_SEED and the property id, so the same run reproduces the same case
+        import json
+        path = argv[argv.index('--replay') + 1]
+        rec = json.load(open(path))
+        print('replaying %s: %s' % (path, rec.get('what', '')[:300]))
+        os.environ['VERIF_SEED'] = str(rec.get('seed', 0))
+        argv = [pid, rec.get('tier', 'quick')]
     tier = argv[1] if len(argv) > 1 and not argv[1].startswith('--') else os.environ.get('VERIF_TIER', 'quick')
     if tier not in ('quick', 'thorough'):
         tier = 'quick'
